@@ -70,6 +70,23 @@ GROUP = dict(
         }
     }
 }''', 1)]),
+        # the other conversions to text: one call of name() each
+        dict(id='theory.formatter', kind='raw', text=_c.theory_text('fmt.rs')[:_c.theory_text('fmt.rs').index('/// `{}` of a `Display` value')]),
+        dict(id='U-ptname.into_str', file='purl/src/package_type.rs', fn='from', ctx=r"impl From<PackageType> for &'static str",
+             properties=['C15'],
+             sig_rw=[('R2', r'fn from\(value: PackageType\) -> Self', "fn package_type_into_str(value: PackageType) -> &'static str", 1)],
+             contract='    ensures r@ == type_name(value)'),
+        dict(id='U-ptname.as_ref', file='purl/src/package_type.rs', fn='as_ref', ctx=r'impl AsRef<str> for PackageType',
+             properties=['C15'],
+             sig_rw=[('R2', r'fn as_ref\(&self\) -> &str', 'fn package_type_as_ref(this: &PackageType) -> &str', 1)],
+             rw=[('R2', r'\bself\b', 'this', '+')],
+             contract='    ensures r@ == type_name(*this)'),
+        dict(id='U-ptname.display', file='purl/src/package_type.rs', fn='fmt', ctx=r'impl fmt::Display for PackageType',
+             properties=['C15', 'C06'],
+             sig_rw=[('R2', r"fn fmt\(&self, f: &mut fmt::Formatter<'_>\) -> fmt::Result", 'fn package_type_fmt(this: &PackageType, f: &mut Formatter) -> FmtResult', 1)],
+             rw=[('R2', r'\bself\b', 'this', '+'),
+                 ('R4', r'f\.write_str\((this\.name\(\))\)', r'x_write_str(f, \1)', 1)],
+             contract='    ensures r is Ok ==> final(f).out() == old(f).out() + type_name(*this)'),
         dict(id='T.UnsupportedPackageType', kind='struct', name='UnsupportedPackageType', file='purl/src/package_type.rs'),
         # R2: `impl FromStr for PackageType { fn from_str }` hoisted; the lookup is an assumed dependency contract
         dict(id='U-ptname.from_str', file='purl/src/package_type.rs', fn='from_str', ctx=r'impl FromStr for PackageType',
